@@ -189,7 +189,8 @@ class C09(CleanBase):
                 img = {}
                 if os.path.isdir(snapdir):
                     for f in sorted(os.listdir(snapdir)):
-                        img[f] = open(os.path.join(snapdir, f), "rb").read()
+                        if os.path.isfile(os.path.join(snapdir, f)):        # (a sub-directory is no snapshot file)
+                            img[f] = open(os.path.join(snapdir, f), "rb").read()
                 return q.returncode, q.stdout, img
             shutil.rmtree(snapdir, ignore_errors=True)
             rc, out, img = run({"BB_VALUE": "v0", "BB_GONE": "1"})
@@ -206,7 +207,10 @@ class C09(CleanBase):
             if img != base:
                 fails.append({"msg": "%s: report mode changed the snapshot directory" % where})
             if "TestGone - 1" not in out or "old_test.snap" not in out:
-                fails.append({"msg": "%s: report mode did not list the stale entry and the old file: %s" % (where, out[-400:])})
+                f_ = {"msg": "%s: report mode did not list the stale entry and the old file: %s" % (where, out[-400:])}
+                if "TestGone" in out and "old_test.snap" in out:
+                    f_["tie"] = True      # both are named, the entry in another shape than `<test> - <ordinal>`: the summary's layout, not a missing item
+                fails.append(f_)
             if any(l.rstrip().endswith(("m_test.snap", "TestStand_1.snap", "TestVal - 1")) for l in out.splitlines()):
                 fails.append({"msg": "%s: report mode lists an addressed item as obsolete: %s" % (where, out[-400:])})
             # every OTHER value of UPDATE_SNAPS is report mode too ("in every other mode no entry or file is removed")
@@ -216,7 +220,10 @@ class C09(CleanBase):
                 if img != base:
                     fails.append({"msg": "%s: UPDATE_SNAPS=%s (neither `true` nor `clean`) changed the snapshot directory: files %s" % (where, spelling, sorted(img))})
                 if "TestGone - 1" not in out or "old_test.snap" not in out:
-                    fails.append({"msg": "%s: UPDATE_SNAPS=%s did not list the stale entry and the old file: %s" % (where, spelling, out[-400:])})
+                    f_ = {"msg": "%s: UPDATE_SNAPS=%s did not list the stale entry and the old file: %s" % (where, spelling, out[-400:])}
+                    if "TestGone" in out and "old_test.snap" in out:
+                        f_["tie"] = True
+                    fails.append(f_)
             # clean mode
             rc, out, img = run({"BB_VALUE": "v0", "BB_GONE": "0", "UPDATE_SNAPS": "clean"})
             runs += 1
